@@ -411,8 +411,11 @@ def ofRes {α} (r : Res α) (f : α → Slot) : Slot × String :=
   | .threw e => (.empty, "!" ++ e.name)
   | .ub => (.empty, "!UB")
 
+/-- in quiet mode no implicit dump is computed (the loop would drop its lines anyway) -/
+def dumpQ (quiet : Bool) (s : Nat) (sl : Slot) : List String := if quiet then [] else dumpSlot s sl
+
 /-- one protocol line → new slots and output lines -/
-def step (ss : Slots) (line : String) : Slots × List String :=
+def step (quiet : Bool) (ss : Slots) (line : String) : Slots × List String :=
   match line.trimAscii.toString.splitOn " " with
   | ["new", s, cls, kind, n] =>
     match nat? s, nat? n with
@@ -426,7 +429,7 @@ def step (ss : Slots) (line : String) : Slots × List String :=
         | "uw" => some (.wg true (WG.new n))
         | _ => none
       match sl with
-      | some sl => let ss := setSlot ss s sl; (ss, "R ok" :: dumpSlot s sl)
+      | some sl => let ss := setSlot ss s sl; (ss, "R ok" :: dumpQ quiet s sl)
       | none => (ss, [bad])
     | _, _ => (ss, [bad])
   | ["dump", s] =>
@@ -464,7 +467,7 @@ def step (ss : Slots) (line : String) : Slots × List String :=
         match res with
         | some (sl, out) =>
           let ss := setSlot ss b sl
-          (ss, ("R " ++ out) :: (dumpSlot a src ++ dumpSlot b sl))
+          (ss, ("R " ++ out) :: (dumpQ quiet a src ++ dumpQ quiet b sl))
         | none => (ss, [bad])
       | _, _ => (ss, [bad])
     else if verb == "writetext" || verb == "writebin" then
@@ -484,7 +487,7 @@ def step (ss : Slots) (line : String) : Slots × List String :=
       match nat? a with
       | some s =>
         match mutate (getSlot ss s) verb [b] with
-        | some (sl, out) => let ss := setSlot ss s sl; (ss, ("R " ++ out) :: dumpSlot s sl)
+        | some (sl, out) => let ss := setSlot ss s sl; (ss, ("R " ++ out) :: dumpQ quiet s sl)
         | none => (ss, [bad])
       | none => (ss, [bad])
   | verb :: a :: b :: "ord" :: rest =>
@@ -495,16 +498,16 @@ def step (ss : Slots) (line : String) : Slots × List String :=
       | "subgraph", .gr und g =>
         let (sl, out) := ofRes (G.getSubgraph und g ord) (Slot.gr und)
         let ss := setSlot ss b sl
-        (ss, ("R " ++ out) :: (dumpSlot a (.gr und g) ++ dumpSlot b sl))
+        (ss, ("R " ++ out) :: (dumpQ quiet a (.gr und g) ++ dumpQ quiet b sl))
       | "subgraphremap", .gr und g =>
         match G.getSubgraphWithRemap und g ord with
         | .ok (h, mp) =>
           let ss := setSlot ss b (.gr und h)
           let mp := mp.toArray.qsort (fun x y => x.1 < y.1) |>.toList
           (ss, ("R ok map=" ++ " ".intercalate (mp.map (fun p => s!"{p.1}:{p.2}"))) ::
-                (dumpSlot a (.gr und g) ++ dumpSlot b (.gr und h)))
-        | .threw e => (setSlot ss b .empty, ["R !" ++ e.name] ++ dumpSlot a (.gr und g) ++ dumpSlot b .empty)
-        | .ub => (setSlot ss b .empty, ["R !UB"] ++ dumpSlot a (.gr und g) ++ dumpSlot b .empty)
+                (dumpQ quiet a (.gr und g) ++ dumpQ quiet b (.gr und h)))
+        | .threw e => (setSlot ss b .empty, ["R !" ++ e.name] ++ dumpQ quiet a (.gr und g) ++ dumpQ quiet b .empty)
+        | .ub => (setSlot ss b .empty, ["R !UB"] ++ dumpQ quiet a (.gr und g) ++ dumpQ quiet b .empty)
       | _, _ => (ss, [bad])
     | _, _, _ => (ss, [bad])
   | "ctor" :: s :: cls :: kind :: _container :: rest =>
@@ -520,7 +523,7 @@ def step (ss : Slots) (line : String) : Slots × List String :=
         | "uw" => some (ofRes (WG.uOfEdgeList es) (Slot.wg true))
         | _ => none
       match r with
-      | some (sl, out) => let ss := setSlot ss s sl; (ss, ("R " ++ out) :: dumpSlot s sl)
+      | some (sl, out) => let ss := setSlot ss s sl; (ss, ("R " ++ out) :: dumpQ quiet s sl)
       | none => (ss, [bad])
     | _, _ => (ss, [bad])
   | ["openfail", _, _, _, _] => (ss, ["R !rte"])
@@ -539,9 +542,9 @@ def step (ss : Slots) (line : String) : Slots × List String :=
                 match FIO.loadText und false (kind != "none") dec bytes with
                 | .ok (h, names) =>
                   let sl := Slot.gr und h
-                  (setSlot ss b sl, ["R ok names=" ++ ",".intercalate (names.map hexOf), "F " ++ hexOf bytes] ++ dumpSlot b sl)
-                | .threw e => (setSlot ss b .empty, ["R !" ++ e.name, "F " ++ hexOf bytes] ++ dumpSlot b .empty)
-                | .ub => (setSlot ss b .empty, ["R !UB", "F " ++ hexOf bytes] ++ dumpSlot b .empty)
+                  (setSlot ss b sl, ["R ok names=" ++ ",".intercalate (names.map hexOf), "F " ++ hexOf bytes] ++ dumpQ quiet b sl)
+                | .threw e => (setSlot ss b .empty, ["R !" ++ e.name, "F " ++ hexOf bytes] ++ dumpQ quiet b .empty)
+                | .ub => (setSlot ss b .empty, ["R !UB", "F " ++ hexOf bytes] ++ dumpQ quiet b .empty)
               | .threw e => (ss, ["R !" ++ e.name])
               | .ub => (ss, ["R !UB"])
             | _, _ => (ss, [bad])
@@ -551,7 +554,7 @@ def step (ss : Slots) (line : String) : Slots × List String :=
               match FIO.writeBinGraph und g enc with
               | .ok bytes =>
                 let (sl, out) := ofRes (FIO.loadBin und (kind != "none") w dec bytes) (Slot.gr und)
-                (setSlot ss b sl, ["R " ++ out, "F " ++ hexOf bytes] ++ dumpSlot b sl)
+                (setSlot ss b sl, ["R " ++ out, "F " ++ hexOf bytes] ++ dumpQ quiet b sl)
               | .threw e => (ss, ["R !" ++ e.name])
               | .ub => (ss, ["R !UB"])
             | none => (ss, [bad])
@@ -566,7 +569,7 @@ def step (ss : Slots) (line : String) : Slots × List String :=
           | none => (ss, [bad])
         else
         match mutate (getSlot ss s0) verb [b, kind] with
-        | some (sl, out) => let ss := setSlot ss s0 sl; (ss, ("R " ++ out) :: dumpSlot s0 sl)
+        | some (sl, out) => let ss := setSlot ss s0 sl; (ss, ("R " ++ out) :: dumpQ quiet s0 sl)
         | none => (ss, [bad])
       | none => (ss, [bad])
   | [verb, s, cls, kind, hex] =>
@@ -580,7 +583,7 @@ def step (ss : Slots) (line : String) : Slots × List String :=
           | some (w, _, dec) =>
             let (sl, out) := ofRes (FIO.loadBin und (kind != "none") w dec bytes) (Slot.gr und)
             let ss := setSlot ss s sl
-            (ss, ("R " ++ out) :: dumpSlot s sl)
+            (ss, ("R " ++ out) :: dumpQ quiet s sl)
           | none => (ss, [bad])
         else
           match textOfStr kind with
@@ -589,9 +592,9 @@ def step (ss : Slots) (line : String) : Slots × List String :=
             | .ok (g, names) =>
               let sl := Slot.gr und g
               let ss := setSlot ss s sl
-              (ss, ("R ok names=" ++ ",".intercalate (names.map hexOf)) :: dumpSlot s sl)
-            | .threw e => (setSlot ss s .empty, ["R !" ++ e.name] ++ dumpSlot s .empty)
-            | .ub => (setSlot ss s .empty, ["R !UB"] ++ dumpSlot s .empty)
+              (ss, ("R ok names=" ++ ",".intercalate (names.map hexOf)) :: dumpQ quiet s sl)
+            | .threw e => (setSlot ss s .empty, ["R !" ++ e.name] ++ dumpQ quiet s .empty)
+            | .ub => (setSlot ss s .empty, ["R !UB"] ++ dumpQ quiet s .empty)
           | none => (ss, [bad])
       | _, _ => (ss, [bad])
     else
@@ -603,7 +606,7 @@ def step (ss : Slots) (line : String) : Slots × List String :=
           | none => (ss, [bad])
         else
         match mutate (getSlot ss s) verb [cls, kind, hex] with
-        | some (sl, out) => let ss := setSlot ss s sl; (ss, ("R " ++ out) :: dumpSlot s sl)
+        | some (sl, out) => let ss := setSlot ss s sl; (ss, ("R " ++ out) :: dumpQ quiet s sl)
         | none => (ss, [bad])
       | none => (ss, [bad])
   | verb :: s :: args =>
@@ -615,7 +618,7 @@ def step (ss : Slots) (line : String) : Slots × List String :=
         | none => (ss, [bad])
       else
       match mutate (getSlot ss s) verb args with
-      | some (sl, out) => let ss := setSlot ss s sl; (ss, ("R " ++ out) :: dumpSlot s sl)
+      | some (sl, out) => let ss := setSlot ss s sl; (ss, ("R " ++ out) :: dumpQ quiet s sl)
       | none => (ss, [bad])
     | none => (ss, [bad])
   | _ => (ss, [bad])
@@ -640,7 +643,7 @@ partial def loop (h : IO.FS.Stream) (out : IO.FS.Stream) (ss : Slots) (quiet : B
     out.putStrLn "> mode verbose"
     loop h out ss false
   else
-    let (ss', outs) := step ss line
+    let (ss', outs) := step quiet ss line
     out.putStrLn ("> " ++ t)
     let explicit := t.startsWith "dump "
     for o in outs do
